@@ -75,6 +75,13 @@ def plan(tier, seed):
                           cfgs=on if re else off, reordering=re,
                           examples=1500 if tier == 'thorough' else 220,
                           min_len=8, max_len=45))
+    # the interpreter run with -O (assert statements stripped)
+    for s in range(4 if tier == 'thorough' else 1):
+        specs.append(dict(kind='random', seed=seed * 1000 + 90 + s,
+                          cfgs=off + on[:2], reordering=False,
+                          examples=800 if tier == 'thorough' else 150,
+                          min_len=8, max_len=40, pyopt=True,
+                          exclude=['bad', 'full', 'decref_zero']))
     # every rejected call of the C17 catalogue after fixed prefixes,
     # followed by the teardown (drop all handles, shutdown check)
     for pi in range(3):
